@@ -8,19 +8,26 @@ import gen
 ATOM_EXTRAS = ["CFG=1", "VAL=2", "HCOUNT=1", "STBOX=1", "INVRET=1", "EXACHG=1", "SUBST=2", "UNSAT=1", "RBCNT=2", "ATTCHPT=1",
                "CLASS=AA", "SEQID=3", "RGROUPS=(1 2)", "ATTCHORD=(4 1 Al 2 Br)"]
 BOND_EXTRAS = ["CFG=1", "TOPO=1", "RXCTR=4", "STBOX=1", "DISP=COORD"]
+BOND_TYPES = [1, 1, 1, 2, 2, 3, 4, 5, 6, 7, 8, 9, 10]      # every bond type of the CTfile format: each is a bonded pair
+BIGMASS = [256, 99999, 123456789, 2**31 + 1, 2**53 + 1, 2**53 + 2, 2**63 + 12345, 10**30 + 7]
+UNICODE_HEADERS = ["O-H 0.97 \u00c5", "\u0105\u0445\u03c5 (UTF-8)", "caf\u00e9 \u2013 \u00b5mol"]   # file API only (graph_from_file decodes)
 COORDS = ["0", "0.0", "1.25", "-2", "3.", "-0.0001", "1e3", "12.5000", "-7.125", "100.5", "0.000001", "-12345.678"]
 
 
-def abstract_molecule(rng, nmax=7, pool=None, coords=COORDS, bigmass=False):
+def abstract_molecule(rng, nmax=7, pool=None, coords=COORDS, bigmass=False, samecoords_p=0.12):
     n = rng.randint(1, nmax)
     pool = pool or rng.choice([["C", "H", "O", "N"], ["C", "H", "H", "H", "O"], ["H", "Cl", "Cs", "C", "Co"], gen.SYMBOLS])
     atoms = []
     for _ in range(n):
         s = rng.choice(pool)
         atoms.append({"sym": s, "chg": rng.choice([0, 0, 0, 1, -1, 2, -3, 3]), "rad": rng.choice([0, 0, 0, 2, 1, 3]),
-                      "mass": (rng.choice([0, 0, 2, 3, 13, 14, 17, 256 if bigmass else 35]) if s != "H" else rng.choice([0, 0, 2, 3, 1])),
+                      "mass": (rng.choice([0, 0, 2, 3, 13, 14, 17, rng.choice(BIGMASS) if bigmass else 35]) if s != "H" else rng.choice([0, 0, 2, 3, 1])),
                       "x": rng.choice(coords), "y": rng.choice(coords), "z": rng.choice(coords)})
-    bonds = [(p, q, rng.choice([1, 1, 2, 3, 4, 9])) for p, q in itertools.combinations(range(n), 2) if rng.random() < rng.choice([0.2, 0.5])]
+    bonds = [(p, q, rng.choice(BOND_TYPES)) for p, q in itertools.combinations(range(n), 2) if rng.random() < rng.choice([0.2, 0.5])]
+    if rng.random() < samecoords_p:
+        # a file written without coordinates: every atom at the origin, so that atoms of one element have identical lines
+        for a in atoms:
+            a["x"], a["y"], a["z"] = (coords[0],) * 3
     return {"atoms": atoms, "bonds": bonds}
 
 
@@ -36,7 +43,8 @@ def from_graph(g):
 
 
 def mol_event(M):
-    return {"atoms": [dict(a) for a in M["atoms"]], "bonds": [[p, q, t] for p, q, t in sorted(M["bonds"])]}
+    from project import fingerprint
+    return {"atoms": [dict(a, mass=fingerprint(a["mass"])) for a in M["atoms"]], "bonds": [[p, q, t] for p, q, t in sorted(M["bonds"])]}
 
 
 def floats_of(M, extra=()):
@@ -203,13 +211,13 @@ def render_v2000(M, rng, perm=None, opts=None):
     expressible = all(block_expressible(a) for a in M["atoms"])
     o = {"mode": rng.choice(["block", "lines", "both", "stale"] if expressible else ["lines", "stale"]), "group": rng.randint(1, 8),
          "zeros": rng.random() < 0.25, "dt": rng.random() < 0.5, "isodt": rng.random() < 0.3, "extra": rng.random() < 0.3,
-         "lists": rng.random() < 0.2, "trail": rng.random() < 0.25, "order": rng.choice(["cri", "irc", "mixed"])}
+         "lists": rng.random() < 0.2, "trail": rng.random() < 0.25, "order": rng.choice(["cri", "irc", "mixed"]), "mmm": rng.random() < 0.5}
     o.update(opts or {})
     lines = [rng.choice(["", "ethanol V2000", "exported as V3000", "converted from V3000 to V2000", "M  END", "name"]), "  SPEC      0101000000",
              rng.choice(["", "checked V2000", "M  CHG  1   1   1", "comment"])]
     alist = ["  1 F    2   6   7", "  1 T    1   8"] if o["lists"] else []
     # counts line aaabbblllfffcccsssxxxrrrpppiiimmmvvvvvv: chiral flag 0 / 1, obsolete fields anything, no Stext entries
-    lines.append(f"{n:3d}{len(M['bonds']):3d}{len(alist):3d}  0{rng.choice([0, 0, 1]):3d}  0{rng.choice([0, 0, 2]):3d}{rng.choice([0, 0, 1]):3d}{rng.choice([0, 0, 3]):3d}{rng.choice([0, 0, 1]):3d}999 V2000")
+    lines.append(f"{n:3d}{len(M['bonds']):3d}{len(alist):3d}  0{rng.choice([0, 0, 1]):3d}  0{rng.choice([0, 0, 2]):3d}{rng.choice([0, 0, 1]):3d}{rng.choice([0, 0, 3]):3d}{rng.choice([0, 0, 1]):3d}{rng.choice(['999', '999', '999', '  0', '  1', '  2', '   ', ' 12']) if o['mmm'] else '999'} V2000")
     for k in order:
         a = M["atoms"][k]
         sym = a["sym"]
